@@ -87,7 +87,7 @@ Proof. exact axis_listing. Qed.
    in the order a' has them (ql = position in a's free legs `la` of each free
    leg of a', in a' order; b's free legs stay).  When p keeps the relative
    order of a's free legs, ql is the identity and the two results coincide. *)
-Theorem C04_pre_transpose_partial :
+Theorem C04_pre_transpose_first :
   forall (G : Symmetry), GroupLaws G -> OrderLaws G ->
   forall (R : Ring), NegLaws R -> SumLaws R ->
   forall (a b : farray G R) (aa ab p : list nat),
@@ -109,14 +109,13 @@ Theorem C04_pre_transpose_partial :
             V G R y' (permuted (ident G, 0) cl ql ++ cr) = V G R t (permuted (ident G, 0) cl ql ++ cr).
 Proof. exact pre_transpose_a. Qed.
 
-(* The full statement of "prior fermionic transposes do not matter" also covers
-   a transpose of the SECOND operand.  Not proved here; it follows from
-   C04_pre_transpose_partial and C04_swap_operands (exchange the operands,
-   apply the theorem, exchange back) once the composition of two fermionic
-   transposes of a contraction result is expressed as one (inv_parity_comp). *)
-Definition C04_pre_transpose_b_full : Prop :=
+(* ... and the same for a transpose of the SECOND operand: b' = transpose(b, p),
+   contracted along ab' = positions of ab in p; the result is the contraction
+   of b itself with b's free legs re-ordered the way b' lists them (qr), a's
+   free legs staying in front. *)
+Theorem C04_pre_transpose_second :
   forall (G : Symmetry), GroupLaws G -> OrderLaws G ->
-  forall (R : Ring), NegLaws R -> SumLaws R -> CommLaws R ->
+  forall (R : Ring), NegLaws R -> SumLaws R ->
   forall (a b : farray G R) (aa ab p : list nat),
   wf_fermi G R a = true -> wf_fermi G R b = true -> pair_ok G R a b aa ab ->
   Permutation p (seq 0 (ndim G R (fbase G R b))) ->
@@ -135,6 +134,7 @@ Definition C04_pre_transpose_b_full : Prop :=
             coords_ok G (without_axes (indices G R (fbase G R a)) aa) cl = true ->
             coords_ok G (without_axes (indices G R (fbase G R b)) ab) cr = true ->
             V G R y' (cl ++ permuted (ident G, 0) cr qr) = V G R t (cl ++ permuted (ident G, 0) cr qr).
+Proof. exact pre_transpose_b. Qed.
 
 (* ---- 6. associativity: the order in which pairs are contracted ---- *)
 (* A chain a - b - c: a and b share the legs (aa, ab), b and c share (bb, cb),
@@ -172,5 +172,6 @@ Print Assumptions C04_sector_parity_perm.
 Print Assumptions C04_resolve_oddpos_is_resolve.
 Print Assumptions C04_swap_operands.
 Print Assumptions C04_axis_listing.
-Print Assumptions C04_pre_transpose_partial.
+Print Assumptions C04_pre_transpose_first.
+Print Assumptions C04_pre_transpose_second.
 Print Assumptions C04_assoc_chain.
